@@ -22,6 +22,12 @@ case "$what" in
     (cd "$VERIF_ROOT/harness" && $GO build -modfile="$mf" -tags tinywasm -o "$VERIF_BUILD/wasmdrv-tinywasm" ./cmd/wasmdrv)
     (cd "$VERIF_REPO" && $GO build -o "$VERIF_BUILD/gtree-cli" ./cmd/gtree)
     ;;
+  racerun)
+    mf="$VERIF_BUILD/seq.mod"
+    sed "s#@REPO@#$VERIF_REPO#" "$VERIF_ROOT/harness/go.mod.tmpl" > "$mf"
+    cp "$VERIF_ROOT/harness/go.sum.base" "$VERIF_BUILD/seq.sum"
+    (cd "$VERIF_ROOT/harness" && CGO_ENABLED=1 $GO build -race -modfile="$mf" -o "$VERIF_BUILD/racerun" ./cmd/racerun)
+    ;;
   mcgen)
     (cd "$VERIF_ROOT/mcgen" && $GO build -o "$VERIF_BUILD/mcgen" .)
     ;;
